@@ -30,7 +30,7 @@ ASSUME = ["the snapshot (closure cells, module globals, attribute lookups) is an
           "capture_freezes: names holding classes/modules/enums (attribute folding) and captured helpers are outside the theorem (correspondence + oracle only)",
           "lambdas with default values / other parameter kinds are [Other] nodes of the reference semantics (no value): covered by "
           "capture_respects_scope, capture_defaults_in_enclosing_scope, the correspondence and the oracles, not by capture_freezes"]
-RULE = ("generated Python programs: values of 22 kinds x scope (module global, enclosing function at depth 1-3, class constant "
+RULE = ("generated Python programs: values of 24 kinds x scope (module global, enclosing function at depth 1-3, class constant "
         "nested <=2, module attribute, enum with/without namespace) x use patterns (arithmetic, nested lambdas, comprehensions, "
         "called lambdas, attribute/keyword names equal to the captured name, ast-field attribute names, every lambda parameter kind "
         "and default values, starred arguments, helpers returning lambdas whose defaults capture variables) x rebinding/deletion after "
@@ -157,7 +157,7 @@ def value_cases():
     for d, sc in scopes_for("x", None):
         for label, v in cc.value_vars("x", sc):
             uses = USES_ANY + (USES_INT if label in ("int", "negint", "bigint", "bool", "float") else USES_INT[:2])
-            if label in ("builtin-fn", "multi-stmt-fn", "lambda-helper", "callable-object"):
+            if label in ("builtin-fn", "multi-stmt-fn", "lambda-helper", "callable-object", "bound-method", "wraps-decorated"):
                 uses = ["lambda e: x(e.a)", "lambda e: e.jets.Select(lambda j: x(j.pt))", "lambda e: x"]
             if label in ("str",):
                 uses = USES_ANY + ["lambda e: x + 'a'", "lambda e: x.upper()", "lambda e: e.jets.Select(lambda j: (j.pt, x))"]
@@ -169,7 +169,7 @@ def value_cases():
                 uses = uses + ["lambda e: x[0] + e.a"]
             for u in uses:
                 for after in ("x = 'REBOUND'", "del x"):
-                    vv = Var(v.name, v.scope, v.src, after, v.helper, v.byname, v.lam_helper)
+                    vv = Var(v.name, v.scope, v.src, after, v.helper, v.byname, v.lam_helper, None, v.stays, v.outside)
                     out.append(Case(u.format(X="x") if "{X}" in u else u, [vv], d, {"value:" + label, "after:" + after.split()[0]},
                                     group="value"))
     return out
